@@ -148,6 +148,24 @@ func runMetricsCase(name string, t Metrics, class int, optsName string, thorough
 	vs := evalMetrics(t, opts)
 	if allOK(vs) {
 		stats["m-cases-ok"]++
+		// every third clean case: the previous clean batch and this one through ONE converter and
+		// ONE writer (state that survives between batches: the reused record, dictionaries, the
+		// converter's scratch buffers)
+		if class < 0 {
+			if havePrevM && stats["m-cases-ok"]%3 == 0 {
+				stats["m-multi-batch-cases"]++
+				if mv := evalMetricsSeq(prevM, t, opts); !allOK(mv) {
+					for i, v := range mv {
+						if !v.ok {
+							propFail("C17", "multi-batch-"+combos[i].name+"-"+v.field, fmt.Sprintf("two batches through one converter and one writer (%s): %s; writer options: %s; first batch: %s; second batch: %s",
+								combos[i].name, v.desc, optsName, clip(EncodeMetrics(prevM), 3000), clip(EncodeMetrics(t), 3000)))
+							break
+						}
+					}
+				}
+			}
+			prevM, havePrevM = t, true
+		}
 		return
 	}
 	stats["m-cases-failing"]++
@@ -328,6 +346,21 @@ func runTracesCase(name string, t Traces, class int, opts pkg.WriterOptions) {
 	vs := evalTraces(t, opts)
 	if allOKT(vs) {
 		stats["t-cases-ok"]++
+		if class < 0 {
+			if havePrevT && stats["t-cases-ok"]%3 == 0 {
+				stats["t-multi-batch-cases"]++
+				if mv := evalTracesSeq(prevT, t, opts); !allOKT(mv) {
+					for i, v := range mv {
+						if !v.ok {
+							propFail("C18", "multi-batch-"+tmodes[i].name+"-"+v.field, fmt.Sprintf("two batches through one converter and one writer (%s): %s; first batch: %s; second batch: %s",
+								tmodes[i].name, v.desc, clip(EncodeTraces(prevT), 3000), clip(EncodeTraces(t), 3000)))
+							break
+						}
+					}
+				}
+			}
+			prevT, havePrevT = t, true
+		}
 		return
 	}
 	stats["t-cases-failing"]++
@@ -478,3 +511,10 @@ func main() {
 	}
 	out.Flush()
 }
+
+var (
+	prevM     Metrics
+	havePrevM bool
+	prevT     Traces
+	havePrevT bool
+)
